@@ -10,7 +10,7 @@ import os
 from hypothesis import strategies as st
 
 from vf import lab, progs, probe
-from vf.core import Prop, Outcome
+from vf.core import Prop, Outcome, fd
 
 from deep.api.tracepoint.trigger import build_trigger
 from deep.api.tracepoint.tracepoint_config import MetricDefinition
@@ -203,9 +203,9 @@ class C03(Prop):
                                  st.tuples(st.just('absent'), st.integers(0, 1)),
                                  st.tuples(st.just('other'), st.just(0)))
         tp = st.one_of(
-            st.fixed_dictionaries({'kind': st.just('line'), 'where': line_where.map(list),
+            fd({'kind': st.just('line'), 'where': line_where.map(list),
                                    'action': st.sampled_from(ACTIONS)}),
-            st.fixed_dictionaries({'kind': st.just('method'), 'where': method_where.map(list),
+            fd({'kind': st.just('method'), 'where': method_where.map(list),
                                    'action': st.sampled_from(ACTIONS)}))
 
         def dup(tps_and_dups):
@@ -219,12 +219,12 @@ class C03(Prop):
 
         tps = st.tuples(st.lists(tp, min_size=1, max_size=4),
                         st.lists(st.tuples(st.integers(0, 3), st.sampled_from(ACTIONS)), max_size=2)).map(dup)
-        general = st.fixed_dictionaries({
+        general = fd({
             'prog': progs.program_recipes(),
             'tps': tps,
             'route': st.sampled_from(['triggers', 'response']),
         })
-        overlap = st.fixed_dictionaries({
+        overlap = fd({
             'mode': st.just('overlap'),
             'b_action': st.sampled_from(ACTIONS),
             'b_kind': st.sampled_from(['line', 'method']),
